@@ -25,6 +25,9 @@ pub static BAD_MAGIC: AtomicU64 = AtomicU64::new(0);
 /// live blocks of the class the sorter's entry buffer belongs to (align 8, size a multiple of 16, >= 32)
 pub static LIVE_CLASS: AtomicI64 = AtomicI64::new(0);
 pub static LIVE_ALL: AtomicI64 = AtomicI64::new(0);
+/// fault injection: the next allocation of exactly this size with align 8 fails (returns null); 0 = off
+pub static FAIL_EXACT: AtomicU64 = AtomicU64::new(0);
+pub static FAILED: AtomicU64 = AtomicU64::new(0);
 
 fn hdr_for(align: usize) -> usize {
     if align > HDR {
@@ -40,6 +43,12 @@ fn in_class(size: usize, align: usize) -> bool {
 
 unsafe impl GlobalAlloc for Monitor {
     unsafe fn alloc(&self, l: Layout) -> *mut u8 {
+        let fail = FAIL_EXACT.load(Relaxed);
+        if fail != 0 && l.align() == 8 && l.size() as u64 == fail {
+            FAIL_EXACT.store(0, Relaxed);
+            FAILED.fetch_add(1, Relaxed);
+            return std::ptr::null_mut();
+        }
         let align = l.align().max(16);
         let hdr = hdr_for(align);
         let total = hdr + l.size() + 8;
